@@ -2,7 +2,7 @@
 from . import anngen
 from .common import Mode1, judge
 
-INSTS = ["I1", "I2", "I3", "I4"]
+INSTS = ["I1", "I2", "I3", "I4", "I5"]
 
 
 def check(ctx):
@@ -22,7 +22,7 @@ def check(ctx):
                finds=sum(1 for t in traces for i in t["sched"] if i["op"] == "rx" for e in i["es"] if e["ty"] == "find"),
                samples=[{"variant": traces[1]["variant"], "schedule": traces[1]["sched"], "trace": traces[1]["ev"][:24]}],
                rule="TLC: two instances x finds {matching each, matching none} by unicast/multicast at every instant of the "
-                    "lifecycle x Mon_C12; real code: four instances (two sharing a service id, one configured with wildcard ids), nine find filters "
+                    "lifecycle x Mon_C12; real code: five instances (two sharing a service id, two sharing service and instance id with different major versions, one configured with wildcard ids), nine find filters "
                     "covering every wildcard combination / mismatch, six timing configurations")
     return ctx.finish("model_checking", cov)
 
